@@ -321,7 +321,7 @@ func b2i(b bool) int {
 var def = pbt.Def[Case]{Name: "linktracking-model", Gen: gen, Run: judge}
 
 func TestProp(t *testing.T) {
-	pbt.Check(t, run, def, 60000, 5000000)
+	pbt.Check(t, run, def, 60000, 3000000)
 }
 
 func TestReplay(t *testing.T) {
